@@ -20,6 +20,7 @@ package simrt
 import (
 	"fmt"
 	"runtime"
+	"strings"
 	"sync"
 	"testing/synctest"
 	"time"
@@ -1247,4 +1248,49 @@ func Now(site string) time.Time {
 // Since replaces time.Since.
 func Since(t0 time.Time, site string) time.Duration {
 	return Now(site).Sub(t0)
+}
+
+// Goroutines waits until every other goroutine of the bubble is durably blocked or gone and
+// returns the number of goroutines of the process. Called by a scenario before it starts
+// anything and after everything it started has finished, the difference is what was left
+// behind -- including goroutines started by code the instrumentation does not see (the
+// standard library, e.g. context.WithTimeout under a parent of a foreign Context type).
+func Goroutines() int {
+	waitQuiescent()
+	// count the goroutines of THIS bubble only (runtime.NumGoroutine also sees the runtime's cleanup and
+	// finalizer goroutines come and go): the traceback header of a bubbled goroutine names its bubble
+	buf := make([]byte, 1<<20)
+	for {
+		n := runtime.Stack(buf, true)
+		if n < len(buf) {
+			buf = buf[:n]
+			break
+		}
+		buf = make([]byte, 2*len(buf))
+	}
+	dump := string(buf)
+	// the first goroutine of the dump is the caller
+	head := dump
+	if i := strings.Index(head, "\n"); i > 0 {
+		head = head[:i]
+	}
+	i := strings.Index(head, "synctest bubble ")
+	if i < 0 {
+		return -1
+	}
+	tag := head[i:]
+	if j := strings.IndexAny(tag, "],"); j > 0 {
+		tag = tag[:j]
+	}
+	count := 0
+	for _, g := range strings.Split(dump, "\n\n") {
+		h := g
+		if k := strings.Index(h, "\n"); k > 0 {
+			h = h[:k]
+		}
+		if strings.HasPrefix(h, "goroutine ") && (strings.Contains(h, tag+"]") || strings.Contains(h, tag+",")) {
+			count++
+		}
+	}
+	return count
 }
